@@ -11,6 +11,7 @@ mod predefcases;
 mod filtercases;
 mod typedcases;
 mod probecases;
+mod artcases;
 
 use std::io::{BufRead, Write};
 
@@ -49,6 +50,7 @@ fn dispatch(toks: &[&str]) -> String {
         "recv" | "conn" | "bigbin" => conncases::run(toks),
         "frame" | "resp" => framecases::run(toks),
         "loop" => loopcases::run(toks),
+        "bigart" => artcases::run(toks),
         "songs" | "songs_nc" => songcases::run(toks),
         "predef" => predefcases::run(toks),
         "filter" => filtercases::run(toks),
